@@ -31,7 +31,7 @@ from xonsh.codecache import run_script_with_cache
 from xonsh.debug import is_breakpoint_engine, to_breakpoint_engine
 from xonsh.dirstack import _get_cwd
 from xonsh.events import events
-from xonsh.lib.lazyasd import LazyBool, lazyobject
+from xonsh.lib.lazyasd import LazyBool, LazyObject, lazyobject
 from xonsh.platform import (
     BASH_COMPLETIONS_DEFAULT,
     DEFAULT_ENCODING,
@@ -744,6 +744,15 @@ def default_value(f):
 def is_callable_default(x):
     """Checks if a value is a callable default."""
     return callable(x) and getattr(x, "_xonsh_callable_default", False)
+
+
+def has_no_string_form(x):
+    """Checks if a value cannot be handed to a child process: functions,
+    classes and other callables (a prompt function, a tracer, a history
+    backend class). A ``LazyObject`` stands for its target and always looks
+    callable, so it does not count.
+    """
+    return callable(x) and not isinstance(x, LazyObject)
 
 
 DEFAULT_TITLE = "{current_job:{} | }{user}@{hostname}: {cwd} | xonsh"
@@ -2580,7 +2589,7 @@ class Env(cabc.MutableMapping):
             if not isinstance(key, str):
                 key = str(key)
             detyper = self.get_detyper(key)
-            if detyper is None:
+            if detyper is None or has_no_string_form(val):
                 # cannot be detyped
                 continue
             try:
@@ -2981,7 +2990,7 @@ class Env(cabc.MutableMapping):
                         self._d[key] = old_value
                     self._detyped = None
                     raise
-            elif detyper is None:
+            elif detyper is None or has_no_string_form(val):
                 pass
             else:
                 deval = detyper(val)
